@@ -119,6 +119,20 @@ def run(tier):
     for ko, (decl, use) in enumerate([("", "var s: S;"), ("struct T\n{\n\ts: S,\n\tx: i32,\n}\n", "var t: T;"), ("", "var n: usize = |:S|;"), ("", "var a: [2]S;"),
                                       ("fn f(s: S) -> i32\n{\n\treturn: 1\n}\n", "var q: i32 = 1;"), ("fn f(s: &S) -> i32\n{\n\treturn: 1\n}\n", "var q: i32 = 1;"), ("const N: usize = |:S|;\n", "var q: usize = N;")]):
         cases.append(("oq%d" % ko, "struct S;\n%sfn main() -> i32\n{\n\t%s\n\treturn: 0\n}\n" % (decl, use), "opaque-structures"))
+    # cycles of 2-4 structures / constants in every declaration order (the containment bookkeeping depends on it)
+    import itertools as _it
+    kcy = 0
+    for ncy in (2, 3, 4):
+        names_ = ["A", "B", "C", "D"][:ncy]
+        decls_ = ["struct %s\n{\n\tm: %s,\n}\n" % (names_[j], names_[(j + 1) % ncy]) for j in range(ncy)]
+        cdecl_ = ["const %s: i32 = %s + 1;\n" % (names_[j], names_[(j + 1) % ncy]) for j in range(ncy)]
+        for perm in _it.permutations(range(ncy)):
+            for dl in (decls_, cdecl_):
+                cases.append(("cy%d" % kcy, "".join(dl[j] for j in perm) + "fn main()\n{\n}\n", "cycles")); kcy += 1
+                cases.append(("cy%d" % kcy, "fn main()\n{\n}\n" + "".join(dl[j] for j in perm), "cycles")); kcy += 1
+    # every spelling of integer literals (separators, bases, suffixes)
+    for kl, lit in enumerate(["0b1010_1010", "0b_1", "0b1_", "0x_FF", "0xF_F", "1_000", "1__0", "0_", "0b", "0x", "0b2", "1_u8", "0b1010_1010u8", "0xFFu8", "0b0", "0x0", "00", "0_0"]):
+        cases.append(("li%d" % kl, "fn main()\n{\n\tvar mask = %s;\n}\n" % lit, "literal-spellings"))
     # deep nesting within the stated bound (depth <= 256)
     for d in (32, 128, 256):
         cases.append(("n%da" % d, "fn main() -> i32\n{\n\treturn: " + "(" * d + "1" + ")" * d + "\n}\n", "nesting"))
@@ -190,6 +204,19 @@ def run(tier):
         kinds[kind.split(":")[0]] += 1
         if key is not None:
             ck.violation(key, "compilation ended abnormally: %s" % f[0][:200], "input kind: %s\nsource:\n%s" % (kind, src))
+    # the second target: everything that compiles natively must compile for wasm32 as well (same front end,
+    # other types for usize and the intrinsics) - a sample of every kind of input
+    by_kind = collections.defaultdict(list)
+    for c in cases: by_kind[c[2].split(":")[0]].append(c)
+    wsel = [c for k_ in sorted(by_kind) for c in by_kind[k_][: (12 if tier == "quick" else 400)]]
+    wimpl = C.run_harness("ir-wasm", [(c[0], c[1]) for c in wsel], ck.work + "/crash-wasm", timeout=3000)
+    for cid, src, kind in wsel:
+        f = wimpl.get(cid, ["missing"]); fn_ = impl.get(cid, ["missing"])
+        key = classify(f, src)
+        if key is not None and classify(fn_, src) is None:
+            ck.violation(key + ":wasm-only", "compilation for the wasm32 target ended abnormally although the native one does not: %s" % f[0][:200], "input kind: %s\nsource:\n%s" % (kind, src))
+        elif f[0].split(" ")[0] != fn_[0].split(" ")[0] and key is None and classify(fn_, src) is None:
+            ck.violation("target-dependent-verdict", "native verdict %s, wasm32 verdict %s" % (fn_[0][:80], f[0][:80]), "input kind: %s\nsource:\n%s" % (kind, src))
     # the same nesting cases through the real command line tool (an unoptimised debug build, the main thread's
     # 8 MiB stack): the harness is compiled with opt-level 1 and does not see what this build sees
     from . import c18
